@@ -142,8 +142,15 @@ class FnVerifier(Verifier):
                         flds.update(['$len', '$elR', '$elS'])
                     name = n.func.attr if isinstance(n.func, ast.Attribute) else getattr(n.func, 'id', None)
                     for q, c in REG.items():
-                        if c.modifies and q.rsplit('.', 1)[-1] == name:
-                            flds.update(c.modifies)
+                        if c.qual.rsplit('.', 1)[-1] != name:
+                            continue
+                        for m_ in c.modifies:
+                            if m_ == '$maps':
+                                flds.update(['$mhasS', '$mvalS', '$mhasR', '$mvalR'])
+                            else:
+                                flds.add(m_.rsplit('.', 1)[-1] if not m_.startswith('$') else m_)
+                        if c.lists:                 # a callee that changes lists (named ones or '*')
+                            flds.update(['$len', '$elR', '$elS'])
         return flds, alloc
 
     def havoc_loop(self, st, body, extra_names=()):
@@ -272,6 +279,9 @@ class FnVerifier(Verifier):
                 m0 = mv.t
             pre_body(b)
             outs += self.split_pend(b)
+            # stated assumptions about the environment of an iteration (listed in the evidence, never proved)
+            for cl in sp.get('assume_in_body', []):
+                self.assume_clause(b, cl)
             entry = b.fork()
             for o in self.exec_block(b, body):
                 if o.kind in ('ok', 'cnt'):
@@ -348,9 +358,15 @@ class FnVerifier(Verifier):
             h.env['_i'] = h.env[ivar]
             return h.env[ivar].t < n
 
+        # snapshot=True: the iterable is a generator / is not changed by the body -- the loop runs over the elements
+        # it had when the loop started (its parameter kind 'list:...' only gives it indexable ghost elements)
+        snap = st.larr(seq.t, seq.ek) if sp.get('snapshot') and isinstance(seq, VList) else None
+
         def pre_body(b):
             i = b.env[ivar].t
-            if mode == 'range':
+            if snap is not None and mode == 'list':
+                val = self.elem_value(z3.Select(snap, i), seq.ek)
+            elif mode == 'range':
                 val = VInt(lo + i)
             elif mode == 'reversed':
                 val = self.elem_value(b.lget(seq.t, n - 1 - i, seq.ek), seq.ek)
@@ -371,7 +387,7 @@ class FnVerifier(Verifier):
             b.env['_i'] = b.env[ivar]
         if isinstance(seq, VList):
             body_flds, _ = self.written_heap(s.body)
-            if '$len' in body_flds and 'len_stable' not in sp:
+            if '$len' in body_flds and 'len_stable' not in sp and not sp.get('snapshot'):
                 raise OutOfSubset('for loop over a list while lists are mutated in the body')
         def post_havoc(h):
             h.env['_i'] = h.env[ivar]
